@@ -241,13 +241,13 @@ impl<V: PoseidonVariant> PoseidonPermExecutor<V> {
 
     /// Extract Merkle sibling data from the operation's private payload.
     ///
-    /// Returns `None` when no private data is attached or the payload is
-    /// not the expected sibling type.
+    /// Returns `None` when no private data is attached.
     ///
     /// # Errors
     ///
-    /// Returns an error if sibling data is present but the executor is
-    /// not in Merkle mode, which indicates a caller configuration mistake.
+    /// Returns an error if the attached payload is not the expected sibling
+    /// type, or if sibling data is present but the executor is not in Merkle
+    /// mode; both indicate a caller configuration mistake.
     fn resolve_private_data<'a, F: Field + 'static>(
         &self,
         ctx: &'a ExecutionContext<'_, F>,
@@ -256,7 +256,12 @@ impl<V: PoseidonVariant> PoseidonPermExecutor<V> {
             return Ok(None);
         };
         let Some(data) = private_data.downcast_ref::<PoseidonPermPrivateData<F>>() else {
-            return Ok(None);
+            return Err(CircuitError::IncorrectNonPrimitiveOpPrivateData {
+                op: self.op_type.clone(),
+                operation_index: ctx.operation_id(),
+                expected: "Poseidon sibling private data over the circuit field".to_string(),
+                got: "private data of another type".to_string(),
+            });
         };
         if !self.merkle_path {
             return Err(CircuitError::IncorrectNonPrimitiveOpPrivateData {
